@@ -525,27 +525,6 @@ end projection
 
 /-! ### what `_validate_slice_thickness` accepts -/
 
-/-- whatever `_validate_slice_thickness` accepts sums to the cell height within the `np.isclose` tolerance
-(`|Σ − H| ≤ 1e-8 + 1e-5·|H|`); for an explicit sequence the accepted tuple is the sequence itself -/
-theorem validate_accepts_only_close_sums (st : Rat ⊕ List Rat) (H : Rat) (v : List Rat)
-    (h : validateThickness st H = .ok v) : isClose (listSum v) H = true ∧ (∀ l, st = .inr l → v = l) := by
-  unfold validateThickness at h
-  cases st with
-  | inl d =>
-    refine ⟨?_, by intro l hl; cases hl⟩
-    simp only at h
-    split at h
-    · cases h
-    · rename_i v' hv'
-      split at h
-      · cases h; assumption
-      · cases h
-  | inr l =>
-    simp only at h
-    split at h
-    · cases h; exact ⟨by assumption, by intro l' hl'; cases hl'; rfl⟩
-    · cases h
-
 /-- a positive scalar thickness is always accepted and yields `⌈H/d⌉` equal slices summing exactly to `H` -/
 theorem validate_scalar_ok (H d : Rat) (hH : 0 < H) (hd : 0 < d) :
     validateThickness (.inl d) H = .ok (List.replicate (sliceCount H d).toNat (sliceThk H d)) := by
@@ -561,94 +540,139 @@ theorem validate_scalar_ok (H d : Rat) (hH : 0 < H) (hd : 0 < d) :
     linarith
   simp [this]
 
-/-! ### the last bin edge is the cell top (`bin_edges[-1] = max(bin_edges[-1], cell_z)`) -/
+/-! ### nothing lies above the last slice (`bin_edges[-1] = np.inf`) -/
 
-lemma stretchLast_length (H : Rat) (ts : List Rat) : (stretchLast H ts).length = ts.length := by
-  induction ts generalizing H with
-  | nil => rfl
-  | cons t ts ih =>
-    cases ts with
+lemma digitize_dropLast_le (l : List Rat) (z : Rat) : digitize l.dropLast z ≤ l.length - 1 := by
+  unfold digitize
+  calc (l.dropLast.filter fun e => decide (e ≤ z)).length ≤ l.dropLast.length := List.length_filter_le _ _
+    _ = l.length - 1 := List.length_dropLast
+
+lemma digitize_dropLast_eq (l : List Rat) (z : Rat) (h : ∀ e, l.getLast? = some e → z < e) :
+    digitize l.dropLast z = digitize l z := by
+  rcases List.eq_nil_or_concat l with rfl | ⟨init, e, rfl⟩
+  · rfl
+  · have he : z < e := h e (by simp)
+    unfold digitize
+    simp [List.filter_append, not_le.mpr he]
+
+lemma binEdges_length (ts : List Rat) : (binEdges ts).length = ts.length := by
+  have h1 : ∀ (ε : Rat) (l : List Rat), (nudgeInit ε l).length = l.length := by
+    intro ε l
+    induction l with
     | nil => rfl
-    | cons t' rest => simp only [stretchLast, List.length_cons]; rw [ih (H - t)]; rfl
+    | cons x l ih => cases l with
+      | nil => rfl
+      | cons y rest => simp only [nudgeInit, List.length_cons] at ih ⊢; omega
+  have h2 : ∀ (acc : Rat) (l : List Rat), (cumsumFrom acc l).length = l.length := by
+    intro acc l
+    induction l generalizing acc with
+    | nil => rfl
+    | cons x l ih => simp [cumsumFrom, ih]
+  unfold binEdges; rw [h1, h2]
 
-lemma stretchLast_pos (H : Rat) (ts : List Rat) (h : ∀ t ∈ ts, 0 < t) : ∀ t ∈ stretchLast H ts, 0 < t := by
-  induction ts generalizing H with
-  | nil => intro t ht; cases ht
-  | cons t ts ih =>
-    have ht := h t (by simp)
-    cases ts with
-    | nil =>
-      intro x hx
-      simp only [stretchLast, List.mem_singleton] at hx
-      subst hx
-      split <;> linarith
-    | cons t' rest =>
-      intro x hx
-      simp only [stretchLast, List.mem_cons] at hx
-      rcases hx with rfl | hx
-      · exact ht
-      · exact ih (H - t) (fun y hy => h y (by simp [hy])) x (by simpa [stretchLast] using hx)
+/-- **every atom has a slice**: whatever its height (also at or above the cell top, e.g. displaced there by frozen phonons in a
+non-periodic potential) the label the code computes is a slice index -/
+theorem labelTop_lt_length (ts : List Rat) (z : Rat) (hne : ts ≠ []) : labelTop ts z < ts.length := by
+  have := digitize_dropLast_le (binEdges ts) z
+  rw [binEdges_length] at this
+  have hpos : 0 < ts.length := List.length_pos_of_ne_nil hne
+  unfold labelTop binEdgesTop
+  omega
 
-lemma listSum_stretchLast (H : Rat) (ts : List Rat) (hne : ts ≠ []) : listSum (stretchLast H ts) = max (listSum ts) H := by
-  induction ts generalizing H with
-  | nil => exact absurd rfl hne
-  | cons t ts ih =>
-    cases ts with
-    | nil =>
-      simp only [stretchLast, listSum, add_zero]
-      split
-      · rw [max_eq_right (by linarith)]; ring
-      · rw [max_eq_left (by linarith)]; ring
-    | cons t' rest =>
-      simp only [stretchLast, listSum]
-      have := ih (H - t) (by simp)
-      simp only [listSum] at this
-      rw [this, ← max_add_add_left]
-      congr 1; ring
-
-lemma stretchLast_eq_self (H : Rat) (ts : List Rat) (h : H ≤ listSum ts) : stretchLast H ts = ts := by
-  induction ts generalizing H with
+lemma getLast?_nudgeInit (ε : Rat) (l : List Rat) : (nudgeInit ε l).getLast? = l.getLast? := by
+  induction l with
   | nil => rfl
-  | cons t ts ih =>
-    cases ts with
-    | nil =>
-      simp only [listSum, add_zero] at h
-      simp only [stretchLast]
-      rw [if_neg (by linarith)]; simp
+  | cons x l ih => cases l with
+    | nil => rfl
+    | cons y rest =>
+      cases rest with
+      | nil => simp [nudgeInit]
+      | cons r rest' =>
+        have ih' := ih
+        simp only [nudgeInit] at ih' ⊢
+        have e1 := List.getLast?_cons_cons (a := x - ε) (b := y - ε) (l := nudgeInit ε (r :: rest'))
+        have e2 := List.getLast?_cons_cons (a := x) (b := y) (l := r :: rest')
+        rw [e1, e2]; exact ih'
+
+lemma getLast?_cumsumFrom (acc : Rat) (ts : List Rat) (hne : ts ≠ []) : (cumsumFrom acc ts).getLast? = some (acc + listSum ts) := by
+  induction ts generalizing acc with
+  | nil => exact absurd rfl hne
+  | cons t ts ih => cases ts with
+    | nil => simp [cumsumFrom, listSum]
     | cons t' rest =>
-      simp only [stretchLast]
-      rw [ih (H - t) (by simp only [listSum] at h ⊢; linarith)]
+      have := ih (acc + t) (by simp)
+      simp only [cumsumFrom, listSum] at this ⊢
+      rw [List.getLast?_cons_cons, this]; congr 1; ring
 
-/-- **no atom below the cell top is dropped** (fix 'last edge = cell top'): for every positive thickness sequence — also one whose
-sum is short of the cell height — an atom has a slice iff it lies below `max(Σ ts, H)`; in particular every `z < H` has one. -/
-theorem labelTop_lt_iff (ts : List Rat) (H z : Rat) (h : ∀ t ∈ ts, 0 < t) (hne : ts ≠ []) :
-    labelTop ts H z < ts.length ↔ z < max (listSum ts) H := by
-  unfold labelTop
-  have hne' : stretchLast H ts ≠ [] := by
-    intro hc; have := stretchLast_length H ts; rw [hc] at this; cases ts <;> simp_all
-  rw [← stretchLast_length H ts, label_lt_iff _ z (stretchLast_pos H ts h) hne', listSum_stretchLast H ts hne]
+/-- below the cell top the code's label is the label of the plain edges (so `label_eq_of_mem_window`, `boundary_goes_up`,
+`nudge_window` describe it) -/
+theorem labelTop_eq_label (ts : List Rat) (z : Rat) (hz : z < listSum ts) : labelTop ts z = label ts z := by
+  unfold labelTop binEdgesTop label
+  apply digitize_dropLast_eq
+  intro e he
+  by_cases hne : ts = []
+  · subst hne; simp [binEdges, cumsumFrom, nudgeInit] at he
+  · unfold binEdges at he
+    rw [getLast?_nudgeInit, getLast?_cumsumFrom 0 ts hne] at he
+    cases he; linarith
 
-theorem atoms_below_cell_top_have_slice (ts : List Rat) (H z : Rat) (h : ∀ t ∈ ts, 0 < t) (hne : ts ≠ []) (hz : z < H) :
-    labelTop ts H z < ts.length :=
-  (labelTop_lt_iff ts H z h hne).mpr (lt_of_lt_of_le hz (le_max_right _ _))
+/-- what the last slice collects: everything from its (nudged) lower edge upwards -/
+theorem labelTop_top (ts : List Rat) (z : Rat) (h : ∀ t ∈ ts, 0 < t) (hne : ts ≠ []) (hz : listSum ts ≤ z) :
+    labelTop ts z = ts.length - 1 := by
+  have hall := L'_all_of_ge nudgeEps 0 ts z nudgeEps_nonneg h (by linarith)
+  have hle := digitize_dropLast_le (binEdges ts) z
+  rw [binEdges_length] at hle
+  -- all edges are ≤ z, so dropping the last one loses exactly one
+  have hcount : digitize (binEdges ts) z = (binEdges ts).length := by
+    have : digitize (binEdges ts) z = ts.length := hall
+    rw [this, binEdges_length]
+  unfold labelTop binEdgesTop
+  unfold digitize at hcount ⊢
+  have hall' : ∀ e ∈ binEdges ts, decide (e ≤ z) = true := by
+    have := List.length_filter_eq_length_iff.mp hcount
+    exact this
+  have : (binEdges ts).dropLast.filter (fun e => decide (e ≤ z)) = (binEdges ts).dropLast := by
+    apply List.filter_eq_self.mpr
+    intro e he
+    exact hall' e (List.dropLast_subset _ he)
+  rw [this, List.length_dropLast, binEdges_length]
 
-/-- for thicknesses that reach the cell top the code's label is the label of the plain sequence (all theorems above apply) -/
-theorem labelTop_eq_label (ts : List Rat) (H z : Rat) (h : H ≤ listSum ts) : labelTop ts H z = label ts z := by
-  unfold labelTop; rw [stretchLast_eq_self H ts h]
+/-! ### what `_validate_slice_thickness` does with an explicit sequence (fix: residual absorbed by the last slice) -/
 
-/-- KNOWN FINDING (key `accepted-thickness-sequence-sum-ne-height`): the accepted explicit sequence need not sum to the cell
-height (it only has to be `np.isclose`, see `validate_accepts_only_close_sums`). -/
-theorem accepted_sequence_sum_ne_height_counterexample :
-    ¬ (∀ (ts : List Rat) (H : Rat), (validateThickness (.inr ts) H).toOption = some ts → listSum ts = H) := by
-  intro h
-  have := h [5, 500005/100000] 10 (by decide +kernel)
-  revert this
-  decide +kernel
+lemma listSum_append_singleton (l : List Rat) (x : Rat) : listSum (l ++ [x]) = listSum l + x := by
+  induction l with
+  | nil => simp [listSum]
+  | cons a l ih => simp only [List.cons_append, listSum, ih]; ring
+
+lemma listSum_dropLast (v : List Rat) (l : Rat) (h : v.getLast? = some l) : listSum v.dropLast + l = listSum v := by
+  rcases List.eq_nil_or_concat v with rfl | ⟨init, e, rfl⟩
+  · simp at h
+  · simp at h; subst h; simp [listSum_append_singleton]
+
+/-- **the accepted thicknesses sum to the cell height**: when the last entry stays positive after absorbing the residual — always
+the case for positive entries larger than the `np.isclose` tolerance — the tuple the code uses sums exactly to `H`. -/
+theorem absorbResidual_sum (v : List Rat) (H l : Rat) (hl : v.getLast? = some l) (hpos : l + (H - listSum v) > 0) :
+    listSum (absorbResidual v H) = H := by
+  unfold absorbResidual
+  rw [hl]
+  simp only
+  by_cases h0 : H - listSum v = 0
+  · rw [if_neg (by intro hc; exact hc.1 h0)]; linarith
+  · rw [if_pos ⟨h0, hpos⟩, listSum_append_singleton]
+    have := listSum_dropLast v l hl
+    linarith
+
+theorem validate_sequence_ok (l : List Rat) (H : Rat) (hc : isClose (listSum l) H = true) :
+    validateThickness (.inr l) H = .ok (absorbResidual l H) := by
+  unfold validateThickness
+  simp [hc]
 
 /-! ### non-vacuity -/
 example : sliceIndex [1, 2, 1] [0, 1, 999999999999/1000000000000, 5/2, 3, 4, 7/2]
     = .ok [[0], [1, 2, 3], [4, 6]] := by decide +kernel
 example : validateThickness (.inl (3/2)) 4 = .ok [4/3, 4/3, 4/3] := by decide +kernel
+example : (validateThickness (.inr [5, 49999/10000]) 10).toOption = some [5, 5] := by decide +kernel
+example : sliceIndexTop [1, 2, 1] [0, 4, 7/2, 5] = .ok [[0], [], [1, 2, 3]] := by decide +kernel
 example : prepareZ 4 (-1/2) = 7/2 ∧ prepareZ 4 (39999999999999/10000000000000) = 0 := by decide +kernel
 
 end AbtemVerif.Props.C09
